@@ -1,12 +1,13 @@
 // Unit slice: get_slice_range (index arithmetic of every string / array slice) and do_slice_string (string
-// slicing: s[a:b:c] and std.slice on strings), verbatim.  String is bound to BStr.
+// slicing: s[a:b:c] and std.slice on strings) from expr.rs and do_std_substr (std.substr) from stdlib.rs, verbatim.
+// String is bound to BStr.
 #![allow(dead_code, unused)]
 mod u {
 use std::marker::PhantomData;
 //@include shim/bstr.rs
 impl FromIterator<char> for BStr { fn from_iter<I: IntoIterator<Item = char>>(it: I) -> Self { let mut r = BStr::new(); for c in it { r.push(c); } r } }
 use self::BStr as String;
-pub enum ValueData<'p> { String(String), _P(PhantomData<&'p ()>) }
+pub enum ValueData<'p> { String(String), Number(f64), _P(PhantomData<&'p ()>) }
 pub type SpanId = u32;
 pub enum EvalErrorKind { Other { span: Option<SpanId>, message: &'static str } }
 pub struct EvalError { pub kind: EvalErrorKind }
@@ -14,11 +15,15 @@ type EvalResult<T> = Result<T, Box<EvalError>>;
 pub struct Evaluator<'a, 'p> { value_stack: Vec<ValueData<'p>>, _p: PhantomData<(&'a (), &'p ())> }
 impl<'a, 'p> Evaluator<'a, 'p> {
     fn report_error(&self, kind: EvalErrorKind) -> Box<EvalError> { Box::new(EvalError { kind }) }
+    // shims of the argument-type checks: the right type is unwrapped, anything else is the type error
+    fn expect_std_func_arg_string(&self, v: ValueData<'p>, _f: &str, _i: usize) -> EvalResult<String> { match v { ValueData::String(s) => Ok(s), _ => Err(Box::new(EvalError { kind: EvalErrorKind::Other { span: None, message: "type" } })) } }
+    fn expect_std_func_arg_number(&self, v: ValueData<'p>, _f: &str, _i: usize) -> EvalResult<f64> { match v { ValueData::Number(x) => Ok(x), _ => Err(Box::new(EvalError { kind: EvalErrorKind::Other { span: None, message: "type" } })) } }
 }
 // error-message text is not part of the contract (formatting a symbolic f64 does not terminate in CBMC)
 macro_rules! format { ($($t:tt)*) => { "<message elided by shim>" } }
 
 //@extract file=rsjsonnet-lang/src/program/eval/expr.rs impl=Evaluator methods=get_slice_range,do_slice_string
+//@extract file=rsjsonnet-lang/src/program/eval/stdlib.rs impl=Evaluator methods=do_std_substr
 
 #[cfg(kani)]
 mod vharness {
@@ -90,6 +95,27 @@ mod vharness {
     #[kani::proof]
     #[kani::unwind(20)]
     fn slice_string_astral() { slice_string("a\u{1F60E}b\u{20ac}", &['a', '\u{1F60E}', 'b', '\u{20ac}']); }
+
+    //@harness props=C18,C01 strength=bounded bound="the string 'h\u00e9l\U0001F60Eo' (5 code points, 9 bytes); from and len any integer in 0..8 (other numbers: the error path)" clause="std.substr(s, from, len) is the len code points starting at code point from (clipped at the end of the string) - counted in code points, not bytes" timeout=900 replay=substr
+    #[kani::proof]
+    #[kani::unwind(20)]
+    fn substr_counts_code_points() {
+        let chars = ['h', '\u{e9}', 'l', '\u{1F60E}', 'o'];
+        let (f, l): (u8, u8) = (kani::any(), kani::any());
+        kani::assume(f <= 8 && l <= 8);
+        let mut ev = Evaluator { value_stack: Vec::with_capacity(3), _p: PhantomData };
+        ev.value_stack.push(ValueData::String(BStr::from("h\u{e9}l\u{1F60E}o")));
+        ev.value_stack.push(ValueData::Number(f as f64));
+        ev.value_stack.push(ValueData::Number(l as f64));
+        let r = ev.do_std_substr();
+        assert!(r.is_ok() && ev.value_stack.len() == 1, "C18,C01:slice:substr-of-valid-arguments-succeeds");
+        let mut want = BStr::new();
+        let mut i = f as usize; let mut k = 0usize; while i < 5 && k < l as usize { want.push(chars[i]); i += 1; k += 1; }
+        match &ev.value_stack[0] {
+            ValueData::String(got) => { let (g, w) = (got.as_bytes(), want.as_bytes()); assert!(g.len() == w.len(), "C18:slice:substr-is-the-code-point-substring"); let mut j = 0; while j < g.len() { assert!(g[j] == w[j], "C18:slice:substr-is-the-code-point-substring"); j += 1; } }
+            _ => assert!(false, "C18:slice:substr-yields-a-string"),
+        }
+    }
 
     //@harness props=C18,C01 strength=proof expect=fail clause="canary"
     #[kani::proof]
